@@ -381,6 +381,11 @@ fn parse_resolve_command(command: &mut std::str::SplitN<&str>) -> Result<Request
         },
         None => -1,
     };
+    // As for set-safe: -2 is the internal in-conflict-resolution marker, a resolution stored with
+    // it keeps the key in conflict for ever
+    if version < -1 {
+        return Err(String::from("resolve version must not be lower than -1"));
+    }
 
     let value = match rest.next() {
         Some(value) => value.replace("\n", ""),
